@@ -314,7 +314,11 @@ func cellLength(data []byte, pos int, typ byte, metadata uint16) (int, error) {
 // and return the Buffer.
 func printTimestamp(v uint32) *bytes.Buffer {
 	if v == 0 {
-		return bytes.NewBuffer(ZeroTimestamp)
+		// Copy the constant: the buffer's bytes are handed out to (and may be
+		// appended to or overwritten by) the caller, ZeroTimestamp must not be.
+		result := &bytes.Buffer{}
+		result.Write(ZeroTimestamp)
+		return result
 	}
 
 	t := time.Unix(int64(v), 0).Local()
